@@ -185,6 +185,28 @@ def run_case(case, ctx):
             if rc != 0 or not (p1 / "src" / "naunet_fex.cpp").exists():
                 viol.append(violation("cli_render_failed", f"naunet init --render exited {rc}"))
                 return {"status": "violated", "violations": viol, "obs": dict(obs)}
+            # a configuration file edited by hand: purely numeric modifier values written as TOML numbers (the bundled ism example
+            # carries `8274 = 0.0`), then `naunet render` from the file alone
+            numeric = {}
+            for k, v in case["rate_modifier"].items():
+                try:
+                    numeric[k] = float(v[0])
+                except ValueError:
+                    pass
+            if numeric and len(reacs) % 2 == 0:
+                import tomlkit
+                doc = tomlkit.loads((p1 / "naunet_config.toml").read_text())
+                for k, fv in numeric.items():
+                    doc["chemistry"]["rate_modifier"][k] = fv
+                (p1 / "naunet_config.toml").write_text(tomlkit.dumps(doc))
+                from .. import clihelp
+                from naunet.species import Species
+                Species.reset()
+                rc2, o2, e2 = clihelp.run_command("render", "--force", p1)
+                obs["rerendered_from_edited_config"] += 1
+                if rc2 != 0:
+                    viol.append(violation("cli_render_failed", f"naunet render after writing numeric modifier values exited {rc2}: {e2[-200:]}"))
+                    return {"status": "violated", "violations": viol, "obs": dict(obs)}
         else:
             p1 = build_api(case, work, True)
         b0 = lab.build_cvode(p0, work / "b0", "dense", ctx.cache, core_only=True)
